@@ -214,7 +214,11 @@ def h_persist(ctx, opt, libserver=False):
         cfg = ofxget.UserConfig()
         cfg.read([path])
         cu1 = cfg[cfg.default_section].get("clientuid")
-        ns3 = argparse.Namespace(server=server, request="stmt", write=True, dryrun=False, language="FRA")
+        # ... whether the later --write is for the same server or for a nickname seen for the first time
+        if ctx.bool("later_write_same_server"):
+            ns3 = argparse.Namespace(server=server, request="stmt", write=True, dryrun=False, language="FRA")
+        else:
+            ns3 = argparse.Namespace(server="newbank", request="stmt", write=True, dryrun=False, language="FRA", url="https://new.example/ofx")
         run_once(ctx, ns3)
         cfg = ofxget.UserConfig()
         cfg.read([path])
